@@ -59,10 +59,15 @@ enum EO { At(String, usize), In(String, usize), NoneO }
 pub fn check_origins(o: &Outcome) -> Result<usize, String> {
     let (t, _) = match (&o.expected, &o.actual) { (Ok(()), Ok(x)) => x, _ => return Ok(0) };
     let mut exp: Vec<(char, EO)> = vec![];
+    // gap_exp[k]: macro definitions (file, body start) whose expansion contributed no non-blank character in the gap before exp[k];
+    // blanks of such an expansion legitimately map to the definition
+    let mut gap_exp: Vec<Vec<(String, usize)>> = vec![vec![]];
     for Frag { raw, org } in &o.eval.frags {
+        if let Org::Exp(f, bs) = org { if !raw.chars().any(|c| !c.is_whitespace()) { gap_exp.last_mut().unwrap().push((f.clone(), *bs)); } }
         for (i, ch) in raw.char_indices() {
             if ch.is_whitespace() { continue; }
             exp.push((ch, match org { Org::Plain(f, off) => EO::At(f.clone(), off + i), Org::Exp(f, bs) => EO::In(f.clone(), *bs), Org::NoneOrg => EO::NoneO }));
+            gap_exp.push(vec![]);
         }
     }
     let text = t.text();
@@ -81,6 +86,8 @@ pub fn check_origins(o: &Outcome) -> Result<usize, String> {
                     match &og { Some((f, oo)) if f == f1 && *o1 < *oo && *oo < *o2 => {}
                         // a blank emitted by a file included between the two tokens (the include itself yields no token)
                         Some((f, _)) if f != f1 && reads.contains(f) => {}
+                        // a blank produced by a macro expansion that yields blanks only
+                        Some((f, oo)) if b.map_or(false, |k| gap_exp[k].iter().any(|(gf, bs)| gf == f && oo >= bs)) => {}
                         other => return Err(format!("blank at output offset {} lies between bytes copied from {}:{} and {}:{} but its origin is {:?}", p, f1, o1, f2, o2, other)) }
                 }
                 (Some(EO::NoneO), _) | (_, Some(EO::NoneO)) | (None, _) | (_, None) => {}
@@ -179,6 +186,7 @@ pub fn main(args: &[String], which: &str) {
         let checks = checks.clone();
         let r = std::panic::catch_unwind(std::panic::AssertUnwindSafe(|| {
             let o = run(c);
+            if let Err(e) = &o.expected { if ppref::is_unmodelled(e) { return (vec![], false, usize::MAX, 0); } }
             let mut fails: Vec<String> = vec![]; let mut nchecked = 0usize;
             for ck in &checks {
                 let r = match *ck {
@@ -200,6 +208,7 @@ pub fn main(args: &[String], which: &str) {
         let key = format!("{:?}{:?}{}{}", c.texts, c.predefs, c.strip, c.ignore);
         match r {
             Err(p) => { rep.case(key.as_bytes(), true); rep.violation(&format!("panic: {}", p), &describe(c), ""); }
+            Ok((_, _, usize::MAX, _)) => { rep.count("skipped-outside-reference-evaluator"); }
             Ok((fails, ok, nchecked, nfrags)) => {
                 rep.case(key.as_bytes(), ok && nfrags >= 4);
                 rep.count(if ok { "run-ok" } else { "run-err" });
